@@ -45,6 +45,13 @@ class ExprMixin:
             return Term("opaque", (ast.unparse(node),), node=node)
         return m(node, fr)
 
+    def e_Slice(self, node: ast.Slice, fr: Frame) -> V:
+        """A slice in a store / delete target (`xs[a:b] = ...`): its bounds as a term."""
+        lo = self.eval(node.lower, fr) if node.lower else Const(None)
+        hi = self.eval(node.upper, fr) if node.upper else Const(None)
+        st = self.eval(node.step, fr) if node.step else Const(None)
+        return Term("sliceobj", (lo, hi, st), node=node)
+
     # ------------------------------------------------------------------ atoms
     def e_Constant(self, node: ast.Constant, fr: Frame) -> V:
         return Const(node.value)
@@ -512,6 +519,14 @@ class ExprMixin:
             v = recv.lookup(idx)
             if v is not None:
                 return v
+            fac = getattr(recv, "default_factory", None)
+            if fac is not None and recv.concrete() and all(self._equal(k, idx) is False or k.key() != idx.key()
+                                                           for k, _ in recv.pairs()):
+                # defaultdict: a missing key is created (distinct symbolic keys are kept apart, which is the
+                # finest partition: entries that may coincide at run time stay separate lists here)
+                nv: V = {"list": ListV([]), "dict": DictV([]), "set": SetV([]), "int": Const(0)}[fac]
+                recv.store(idx, nv)
+                return nv
             if recv.concrete():
                 # maybe equal to some key we cannot compare
                 if all(self._equal(k, idx) is False or (isinstance(k, Const) and isinstance(idx, Const))
